@@ -256,7 +256,8 @@ theorem IsLast_unique {keys : List Bytes} {k : Bytes} {c j : Nat} (hc : IsLast k
 with `keys` the lower-cased, trimmed column names of the file in column order, a struct field receives
 column `c` iff `c` is the (last) column whose key equals the field's lower-cased `shp` tag, or — when no
 column carries the tag — the (last) column whose key equals the lower-cased field name. A geometry field
-never takes part (it is tested first in `decodeField`). -/
+never takes part (it is tested first in `decodeField`). Every matched attribute field is ASSIGNED on every
+row (`C16_assigned` below), so nothing of an earlier row survives in a reused record variable. -/
 theorem C16_match (keys : List Bytes) (sf : SField) (c : Nat) :
     matchField keys sf = some c ↔
       IsLast keys (lower sf.tag) c ∨
@@ -280,6 +281,20 @@ theorem C16_match (keys : List Bytes) (sf : SField) (c : Nat) :
     · rintro (hc | ⟨_, hc⟩)
       · exact absurd hc.1 (hno c)
       · exact hc
+
+/-- **C16_assigned** (clauses "strings are equal / integer attributes are equal", reused record variable):
+when a column matches a string field, the value after `DecodeRow` is the cell's text whatever the field
+held before (`prev`) — in particular the empty string comes back as the empty string — and a numeric
+field whose cell parses is overwritten likewise. -/
+theorem C16_assigned {α : Type} (keys : List Bytes) (g : Geom α) (cells : List Bytes) (sf : SField) (j : Nat) (cell : Bytes)
+    (prev : RVal α) (hm : matchField keys sf = some j) (hc : cells[j]? = some cell) :
+    (sf.kind = .str → decodeField keys g cells sf prev = .ok (.str (strOf cell), false)) ∧
+    (∀ i, sf.kind = .int → parseInt (numText cell) = some i → decodeField keys g cells sf prev = .ok (.int i, false)) ∧
+    (∀ u, sf.kind = .float → parseFloat (numText cell) = some u → decodeField keys g cells sf prev = .ok (.float u, false)) := by
+  refine ⟨?_, ?_, ?_⟩
+  · intro hk; simp [decodeField, hk, hm, hc]
+  · intro i hk hp; simp [decodeField, hk, hm, hc, hp]
+  · intro u hk hp; simp [decodeField, hk, hm, hc, hp]
 
 /-- a struct field stays untouched iff neither its tag nor its name is a column key -/
 theorem C16_match_none (keys : List Bytes) (sf : SField) :
@@ -491,14 +506,14 @@ theorem readM_go_fields (zero : α) (f : FileM α) (calls : List Call) (G : Shap
     (hcalls : ∀ c ∈ calls, ∃ ns, c = Call.f ns ∧
       ∀ r ∈ f.rows, ∃ vs : List (RVal α), rowFields (fileKeys f.fields) r.2 ns = .ok (vs, false))
     (hg : ∀ r ∈ f.rows, shp2Geom r.1 = .ok (G r.1)) :
-    ∀ (rest : List (Shape α × List Bytes)) (k i : Nat), f.rows.drop k = rest →
-      readM.go zero f calls (fileKeys f.fields) rest k i
+    ∀ (rest : List (Shape α × List Bytes)) (k i : Nat) (vars : List (List (RVal α))), f.rows.drop k = rest →
+      readM.go zero f calls (fileKeys f.fields) rest k i vars
         = ⟨expRows (fileKeys f.fields) calls G rest i, false, false⟩ := by
   intro rest
   induction rest with
-  | nil => intro k i _; simp [readM.go, expRows]
+  | nil => intro k i vars _; simp [readM.go, expRows]
   | cons r rest ih =>
-    intro k i hdrop
+    intro k i vars hdrop
     have hlen : 0 < calls.length := List.length_pos_iff.mpr hne
     have hi : i % calls.length < calls.length := Nat.mod_lt _ hlen
     have hk : k < f.rows.length := by
@@ -521,7 +536,7 @@ theorem readM_go_fields (zero : α) (f : FileM α) (calls : List Call) (G : Shap
     simp only at hgr hvs
     rw [readM.go]
     simp only [List.getElem?_eq_getElem hi, hc, hgr, List.getElem?_eq_getElem hk, hrk, hvs,
-      ih (k + 1) (i + 1) hrest, expRows, expRow]
+      ih (k + 1) (i + 1) vars hrest, expRows, expRow]
 
 /-- **C16_order_any_fields** (clause "come back in the same order and number", any reading schedule):
 on ONE decoder, `n` reads whose requested field lists vary arbitrarily per row (all names, a subset, a
@@ -535,9 +550,9 @@ theorem C16_order_any_fields (zero : α) (f : FileM α) (calls : List Call) (G :
     (hg : ∀ r ∈ f.rows, shp2Geom r.1 = .ok (G r.1)) :
     readM zero f calls = ⟨expRows (fileKeys f.fields) calls G f.rows 0, false, false⟩ ∧
     (readM zero f calls).rows.length = f.rows.length := by
-  have := readM_go_fields zero f calls G hne hcalls hg f.rows 0 0 (by simp)
-  refine ⟨by simpa [readM] using this, ?_⟩
-  simp only [readM, this, expRows_length]
+  have h := fun vars => readM_go_fields zero f calls G hne hcalls hg f.rows 0 0 vars (by simp)
+  refine ⟨by simp only [readM, h], ?_⟩
+  simp only [readM, h, expRows_length]
 
 /-- non-vacuity: a geometry-only read followed by a read with a field returns record 1's value with
 record 1 (the seeded change C16-a3 returned record 0's) -/
